@@ -534,13 +534,20 @@ def confusion_and_warnings(ctx, rng):
                         ctx.violation(f"unsafe-key-text-not-flagged:{name}@{path}", f"{name} text imported as a symmetric secret through {path} raised no warning "
                                       f"(warnings seen: {[str(w.message)[:40] for w in o.warnings]})", {"encoding": name, "path": path, "as": vname})
             # the same text with leading whitespace / a UTF-8 BOM is still PEM/SSH formatted text
-            for pre_name, pre in (("leading-newline", b"\n"), ("leading-space", b"  ")):
-                ctx.ev()
-                o = call(j.OctKey.import_key, pre + text)
-                ctx.count("warning_cases")
-                flagged = any(w.category is not DeprecationWarning for w in o.warnings)
-                if o.ok and not flagged:
-                    ctx.open(f"key-text-with-{pre_name}-not-flagged")
+            for pre_name, pre in (("leading-newline", b"\n"), ("leading-space", b"  "), ("leading-crlf-tab", b"\r\n\t"), ("utf8-bom", b"\xef\xbb\xbf"),
+                                  ("bag-attributes-preamble", b"Bag Attributes\n    localKeyID: 01\n")):
+                for vname, v in (("bytes", pre + text), ("str", (pre + text).decode())):
+                    ctx.ev()
+                    o = call(j.OctKey.import_key, v)
+                    ctx.count("warning_cases")
+                    flagged = any(w.category is not DeprecationWarning for w in o.warnings)
+                    if o.ok and not flagged:
+                        if pre_name == "bag-attributes-preamble":
+                            ctx.open("key-text-after-a-preamble-not-flagged")
+                        else:
+                            # white space or a byte order mark in front: every PEM / SSH reader takes this text for the key it is
+                            ctx.violation(f"unsafe-key-text-not-flagged:{name}@OctKey.import_key[{pre_name}]", f"{name} text with {pre_name} in front imported as a symmetric "
+                                          f"secret raised no warning", {"encoding": name, "prefix": pre_name, "as": vname})
 
 
 def run_shard(ctx):
